@@ -24,7 +24,12 @@ LEVEL_NOTE = ("the end-to-end theorem (PepperProps/C06.lean: end_to_end, end_to_
               "replaced by 'any assignment satisfying the arrays' (ArraysGood); hypothesis MfeNamesDistinct (F13). Text hops: the .pil text is read back by "
               "the model of the PIL reader (PepperProps/ParsePil.lean: end_to_end_from_text), and PepperProps/C06Text.lean states the result with finishText on "
               "the RENDERED .mfe text, the readability of the records being derived from the compile (end_to_end_text; name characters of the sources are "
-              "decidable hypotheses); what stays opaque is the GC-content float token of each record (any token float() accepts); "
+              "decidable hypotheses) for any float token in the GC-content field; PepperProps/C06Gc.lean closes that field: PepperModel/GcFloat.lean models "
+              "'%f' % (count / length) in exact integer arithmetic (binary64 division and %f, both correctly rounded, ties to even), gcToken_shape / "
+              "gcToken_value prove the token's form and value, text_level / end_to_end_text_gc state the text level for the file Mfe.outputGc writes "
+              "with no token left free; that this integer model IS CPython's float division and %f is not a theorem but a correspondence checked on "
+              "every run (all 0 <= k <= n <= 220, random larger pairs incl. operands beyond 2^53, arbitrary doubles for %f, and the whole .mfe text "
+              "of every generated program byte for byte; the exponent range of binary64 is not modelled, irrelevant below lengths of 2^1022); "
               "NUPACK (DNAfold) is absent, so .mfe files are written with findmfe=False")
 
 
@@ -117,6 +122,8 @@ def run_(st, tier, seed, shared):
             reqs.append({"op": "mfe-write", "stmts": [s for s in pilio.read_pil(out["pil"]) if s["k"] != "kinetic"],
                          "layout": "struct" if struct_orient else "strand", "nts": out["nts"]})
             meta.append(("mfe", inp, out, b))
+            # the same with the REAL GC-content token in every record (Mfe.outputGc): the whole .mfe text, byte for byte
+            reqs.append(dict(reqs[-1], op="mfe-write-gc")); meta.append(("mfe-gc", inp, out, b))
         if len(res.samples) < 1:
             res.sample({"source": b.texts, "seqs": out["seqs"][:600]})
     if drv is not None:
@@ -144,6 +151,16 @@ def run_(st, tier, seed, shared):
                 if g.get("ok") != want:
                     first = next((i for i, (x, y) in enumerate(zip(g.get("ok") or [], want)) if x != y), None)
                     res.corr_breaks.append({"name": "Mfe.processResults+output", "input": inp,
+                                            "model": (g.get("ok") or g)[first] if first is not None and "ok" in g else str(g)[:300],
+                                            "impl": want[first] if first is not None else "length %d vs %d" % (len(g.get("ok") or []), len(want))})
+            elif kind == "mfe-gc":
+                # NOTHING masked: "\n".join(lines) of the model must be the file Convert.output wrote
+                res.disagreements_checked += 1
+                res.count("mfe-text-compared-byte-for-byte")
+                want = out["mfe"].split("\n")
+                if g.get("ok") != want:
+                    first = next((i for i, (x, y) in enumerate(zip(g.get("ok") or [], want)) if x != y), None)
+                    res.corr_breaks.append({"name": "Mfe.outputGc (the .mfe text including the GC-content field)", "input": inp,
                                             "model": (g.get("ok") or g)[first] if first is not None and "ok" in g else str(g)[:300],
                                             "impl": want[first] if first is not None else "length %d vs %d" % (len(g.get("ok") or []), len(want))})
             else:
@@ -234,5 +251,85 @@ def run_(st, tier, seed, shared):
         rt = core.rng_for(seed, "c06-text")
         parsecorr_pil.check_texts(res, drv, [(l, t) for l, t, _b, _r in parsecorr_pil.compiled_texts(rt, 40 if tier == "quick" else 1500, res)], "text-compiled")
         parsecorr_pil.check_texts(res, drv, parsecorr_pil.example_texts(rt, 8 if tier == "quick" else 10 ** 6), "text-examples")
+    if drv is not None:
+        gc_float_section(res, drv, tier, seed)
     res.programs = res.evaluations
     return res
+
+
+# ---------------------------------------------------------------------------------------------------------------------
+# GC-content field: "%f" % (k / n) of the REAL interpreter against GcFloat.gcToken (PepperModel/GcFloat.lean, C06Gc.lean)
+# ---------------------------------------------------------------------------------------------------------------------
+GC_EXHAUSTIVE_N = 220
+
+
+def gc_content_line(seq, length):
+    """the record line as Convert.output computes and prints it, on the running interpreter"""
+    gc_content = (seq.count("C") + seq.count("G")) / length
+    return "%s %f %f %d\n" % (seq, 0, gc_content, 0)
+
+
+def gc_float_section(res, drv, tier, seed):
+    """(1) every pair 0 <= k <= n <= 220 and random / directed larger pairs: "%f" % (k / n) and the double k / n itself
+    (float.as_integer_ratio) against the model's token and its significand / exponent; (2) "%f" % x for arbitrary doubles
+    against GcFloat.fmtF6; (3) the record line "%s %f %f %d" as a whole.  (What Convert.output itself counts and divides by is
+    compared through the real Convert.output: the byte-for-byte `mfe-gc` comparison in run_.)"""
+    from fractions import Fraction
+    rng = core.rng_for(seed, "c06-gcfloat")
+    pairs = [(k, n) for n in range(1, GC_EXHAUSTIVE_N + 1) for k in range(n + 1)]
+    n_exh = len(pairs)
+    m = 3000 if tier == "quick" else 200000
+    for _ in range(m):
+        n = rng.choice([rng.randint(GC_EXHAUSTIVE_N + 1, 5000), rng.randint(1, 10 ** 6), 2 ** rng.randint(7, 20),
+                        2 ** rng.randint(1, 12) * 5 ** rng.randint(0, 6), rng.randint(1, 10 ** 6)])
+        k = rng.choice([rng.randint(0, n), rng.randint(0, n), 1, n - 1, n // 2, n])
+        pairs.append((k, n))
+    # beyond any real sequence length: operands that no longer fit a double (long_true_divide's slow path)
+    for _ in range(40 if tier == "quick" else 2000):
+        n = rng.randint(2 ** 53, 2 ** rng.randint(54, 200))
+        pairs.append((rng.randint(0, n), n))
+    got = drv.call_many([{"op": "gc-tokens", "pairs": [list(p) for p in pairs]}])[0].get("ok") or []
+    res.count("gcfloat:pairs-exhaustive(n<=%d)" % GC_EXHAUSTIVE_N, n_exh)
+    res.count("gcfloat:pairs-random-or-directed", len(pairs) - n_exh)
+    ties = 0
+    bad = 0
+    if len(got) != len(pairs):
+        res.corr_breaks.append({"name": "GcFloat.gcToken", "input": "batch", "model": "%d answers" % len(got), "impl": "%d pairs" % len(pairs)})
+    for (k, n), g in zip(pairs, got):
+        res.disagreements_checked += 1
+        x = k / n                                  # the real division
+        want = "%f" % x                            # the real formatting
+        p, q = x.as_integer_ratio()
+        model_val = Fraction(g.get("m", -1), 2 ** g.get("s", 0)) if "ok" in g else None
+        if Fraction(p, q) * 2 * 10 ** 6 % 2 == 1:
+            ties += 1                              # the exact value lies half-way between two 6-digit decimals
+        if g.get("ok") != want or model_val != Fraction(p, q):
+            bad += 1
+            if bad <= 5:
+                res.corr_breaks.append({"name": "GcFloat.gcToken / divRne against \"%f\" % (k / n) of the running interpreter",
+                                        "input": {"k": k, "n": n}, "model": g, "impl": {"text": want, "double": [p, q]}})
+    res.count("gcfloat:decimal-ties(half-even on the exact binary value)", ties)
+    # (2) "%f" of arbitrary non-negative doubles (not only quotients): uniform mantissas over many binades, and every odd / 128 tie
+    xs = [j / 128 for j in range(129)] + [j / 128 + i for i in (1, 2, 7, 1000) for j in (1, 3, 5, 127)]
+    for _ in range(1500 if tier == "quick" else 100000):
+        e = rng.randint(-80, 40)
+        xs.append(rng.randint(2 ** 52, 2 ** 53 - 1) * 2.0 ** (e - 52))
+    xs += [0.0, 5e-324, 2.2250738585072014e-308, 0.5, 0.9999995, 0.99999949999999994, 0.0000005, 1e22, 123456789012345678.0]
+    reqs = []
+    for x in xs:
+        p, q = x.as_integer_ratio()
+        reqs.append({"op": "fmt-f", "m": p, "s": q.bit_length() - 1})
+    for x, g in zip(xs, drv.call_many(reqs)):
+        res.disagreements_checked += 1
+        res.count("gcfloat:percent-f-of-a-double")
+        if g.get("ok") != "%f" % x:
+            res.corr_breaks.append({"name": "GcFloat.fmtF6 against \"%f\" % x of the running interpreter", "input": x.hex(),
+                                    "model": g, "impl": "%f" % x})
+    # the record line as a whole
+    for seq in ("ACGT", "GGGC", "AAAT", "ACG+CGT", "NNSN"):
+        n = len(seq.replace("+", ""))
+        k = seq.count("C") + seq.count("G")
+        g = drv.call({"op": "gc-line", "seq": seq, "k": k, "n": n})
+        res.disagreements_checked += 1
+        if gc_content_line(seq, n) != "%s\n" % g.get("ok"):
+            res.corr_breaks.append({"name": "GcFloat.recordLine", "input": seq, "model": g, "impl": gc_content_line(seq, n)})
